@@ -65,8 +65,9 @@ CLAIMS = {
         text="Proof for the read side, relative to the table as it is: StrMap.Get (generic, verified once for every value type) never fails on any table whose stored indices are in range, answers absent on an empty or never loaded map (D6 fixed), "
              "and returns exactly what a scan of the slot run finds - present iff some item of the run starting at hashtable[hash(s) % slots] has a key equal to s, with the value of the first such item; Str2Str.Get is that answer with the value fetched from the string store "
              "(a key whose value is the empty string is present); Len and Item; StrStore.Get returns the stored bytes without copying; a Str2Str load with mismatching slice lengths is an error and touches nothing (frame).",
-        note="NOT proved: that LoadFromSlice / LoadFromMap / makeHashtable build a table in which every loaded key lies in its slot run (they use sort.Sort and floating point arithmetic, outside the verifier's subset; their frames are trusted contracts), "
-             "hence 'every loaded key returns its value' and reload behaviour are not decided - only that Get cannot find anything that is not in the table and cannot miss anything in the run. maphash.String is an uninterpreted deterministic function of the string (the seed is fixed per map). " + TRUST,
+        note="StrMap.LoadFromSlice itself is verified for safety (no panic, no overflow for up to 2^30 keys of up to 4 GiB), its error case, its frame and - from the TRUSTED contract of makeHashtable (sort.Sort and floating point arithmetic are outside the verifier's subset) - the structure of the rebuilt table (slots in range, items sorted by slot, hashtable[s] the first item of slot s). "
+             "NOT proved: that the rebuilt table holds exactly the given pairs, each in the slot its key hashes to (the loop invariants establish it per item before the sort, but the forall-exists chain through the permutation is beyond the solvers), hence 'every loaded key returns its value' and reload behaviour are not decided - only that Get cannot find anything that is not in the table and cannot miss anything in the slot run. "
+             "maphash.String is an uninterpreted function of the string's content (the seed is fixed per map); StrStore.Load has a trusted frame contract; LoadFromMap (map iteration) is not under contract. " + TRUST,
         design="8.2 C07"),
     "C08": dict(
         text="Proof: the buffer skipper agrees with the grammar in both directions: success iff the grammar says a complete well-formed value is present, with the exact extent; "
